@@ -55,13 +55,16 @@ class TreeGen:
                 open_vars.append((var, 'many'))
                 self.features.add('map')
             # sometimes consume immediately, sometimes later (await order)
-            if rng.random() < 0.6:
+            if rng.random() < 0.5:
                 self._consume(t, open_vars.pop())
             if rng.random() < 0.1:
                 t['steps'].append(['cache', 'k'])
         rng.shuffle(open_vars)
+        drop_all = self.unawaited and len(open_vars) >= 2 and rng.random() < 0.12
+        if drop_all:
+            self.features.add('multi_unawaited')
         for ov in open_vars:
-            if self.unawaited and rng.random() < 0.15:
+            if drop_all or (self.unawaited and rng.random() < 0.15):
                 self.features.add('unawaited')
                 continue
             self._consume(t, ov)
